@@ -280,5 +280,59 @@ pub fn run(ctx: &Ctx) -> Report {
         }
         rep.note("thread_counts", t.to_string());
     }
+    if !ctx.quick() {
+        miri_schedules(ctx, &mut rep);
+    }
     rep
+}
+
+/// Thorough tier: the concurrent-compilation workload of /verif/miri-c11 (same module pair compiled repeatedly, in both
+/// source orders and on 3 threads at once, results compared byte-for-byte inside the program) run under Miri, one thread
+/// schedule per seed. Miri reports undefined behaviour and data races of the executions it interprets; a failed
+/// assertion inside the driver is a C11 violation under that schedule. Anything else (Miri missing, unsupported
+/// operation, build failure) is inconclusive.
+fn miri_schedules(ctx: &Ctx, rep: &mut Report) {
+    use std::process::{Command, Stdio};
+    let dir = format!("{VERIF_DIR}/miri-c11");
+    let _ = std::fs::copy(format!("{REPO_DIR}/Cargo.lock"), format!("{dir}/Cargo.lock"));
+    let first = (ctx.seed % 1000) * 16;
+    let seeds = format!("{}..{}", first, first + 16);
+    // Miri's isolation keeps CARGO / CARGO_HOME away from the program, so the compiler finds no rustfmt to spawn
+    let out = Command::new("cargo")
+        .args(["+nightly", "miri", "run", "--offline", "--quiet", "--", "3"])
+        .current_dir(&dir)
+        .env("CARGO_NET_OFFLINE", "true")
+        .env("MIRIFLAGS", format!("-Zmiri-many-seeds={seeds}"))
+        .stdin(Stdio::null())
+        .stdout(Stdio::piped())
+        .stderr(Stdio::piped())
+        .output();
+    let out = match out {
+        Ok(o) => o,
+        Err(e) => {
+            rep.inconclusive.push(format!("miri: cannot run cargo: {e}"));
+            return;
+        }
+    };
+    let stdout = String::from_utf8_lossy(&out.stdout).to_string();
+    let stderr = String::from_utf8_lossy(&out.stderr).to_string();
+    let ok_runs = stdout.matches("MIRI-C11 ok").count() as u64;
+    rep.count("miri_schedules_explored(ok)", ok_runs);
+    rep.evaluations += ok_runs;
+    rep.extra.insert("miri_seeds".into(), json!(seeds));
+    for k in 0..ok_runs {
+        rep.nontrivial.insert(hash_str(&format!("miri-seed-{}", first + k)));
+    }
+    let ub = stderr.contains("Undefined Behavior") || stderr.contains("Data race detected");
+    let assertion = stderr.contains("C11: ");
+    if ub || assertion {
+        let line = stderr.lines().find(|l| l.contains("Undefined Behavior") || l.contains("Data race") || l.contains("C11: ")).unwrap_or("").to_string();
+        rep.violations.push(Violation {
+            sig: format!("c11|miri|{}", if assertion { "result-differs-under-schedule" } else { "undefined-behaviour-or-data-race" }),
+            what: format!("Miri (seeds {seeds}): {}", one_line(&line, 300)),
+            replay: json!({"miri_seeds": seeds, "stderr": one_line(&stderr, 4000)}),
+        });
+    } else if !out.status.success() || ok_runs == 0 {
+        rep.inconclusive.push(format!("miri run did not complete ({} ok runs): {}", ok_runs, one_line(&stderr, 400)));
+    }
 }
